@@ -41,6 +41,10 @@ const preludeMath = `
 (declare-fun OccX ((Array Int XF) Int Int XF) Int)
 (declare-fun SetSum ((Array Int Real) (Array Int Bool)) Real)
 (declare-fun Tot ((Array Int Real)) Real)
+(declare-fun fp2real ((_ FloatingPoint 11 53)) Real)
+(declare-fun fp2xf ((_ FloatingPoint 11 53)) XF)
+(declare-fun real2fp (Real) (_ FloatingPoint 11 53))
+(declare-fun xf2fp (XF) (_ FloatingPoint 11 53))
 (declare-fun XSum ((Array Int XF) Int Int) Real)
 `
 
